@@ -45,6 +45,16 @@ func main() {
 		for _, h := range hs.Harnesses {
 			fmt.Printf("%-40s %-6s %-8s %v %s\n", h.Fn, h.Sub, h.Tier, h.Props, h.Bounds)
 		}
+	case "selftest":
+		interp.SolverTimeoutMs = 20000
+		n, fails := interp.SelfTest(1)
+		for _, f := range fails {
+			fmt.Println("SELFTEST-FAIL", f)
+		}
+		fmt.Printf("selftest: %d obligations, %d failures\n", n, len(fails))
+		if len(fails) > 0 {
+			os.Exit(1)
+		}
 	case "replay":
 		os.Exit(replayMain(os.Args[2:]))
 	default:
